@@ -216,6 +216,9 @@ class Exec:
                 if real is not None and not hasattr(real, attr) and '__getattr__' in vars(real):
                     k = _calls.resolve_method(real, '__getattr__')
                     return _calls.apply_contract(self, st, k, o, [PConst(attr)], {}, [], [], node or ast.Constant(value=None, lineno=0))
+                if real is not None and not hasattr(real, attr) and not any(key.endswith('.' + attr) for key in self.spec.contract_keys()):
+                    # neither a declared field nor an attribute of the class: an instance attribute the contracts do not know
+                    raise Unsupported(f'attribute {attr!r} of {o.cls} is not a declared field (missing contract)')
             return [(st, PBound(o, attr))]
         if isinstance(o, (PDict, PSet, PMap, PTuple, PSeq, PSuper)) or (isinstance(o, ZV) and o.kind == 'str'):
             return [(st, PBound(o, attr))]
